@@ -57,6 +57,7 @@ class Check:
         self.samples = []
         self.notes = []
         self.crosscheck = []
+        self.level_category = "proof"
         self.crashed = None
 
     # ---- registration ------------------------------------------------------
@@ -114,7 +115,11 @@ class Check:
                 # the code read an attribute that the harness stub of a collaborator does not model: a gap of the
                 # harness, not a statement about the code - never a violation
                 rec.update(verdict=ERROR, detail="harness gap: stub object lacks attribute %r\n%s" % (getattr(e, "name", "?"), text))
-            elif inner.startswith(loader.SRC) or isinstance(e, loader.MissingCode):
+            elif isinstance(e, loader.MissingCode):
+                # the function / loop the contract is anchored in does not exist any more: the contract has to be
+                # re-anchored - undecided, never a violation
+                rec.update(verdict=UNKNOWN, detail="contract not anchored: " + text[-800:])
+            elif inner.startswith(loader.SRC):
                 rec.update(verdict=REFUTED, key="unexpected-%s" % type(e).__name__,
                            detail="exception raised inside the code under contract while generating the "
                                   "obligation (no contract allows it):\n" + text)
@@ -172,6 +177,17 @@ class Check:
                     len(symx.CC["disagree"]), symx.CC["disagree"][0][:600])
         except ImportError:
             pass
+        try:
+            from . import ident
+            if ident.XC["agree"] or ident.XC["skipped"] or ident.XC["disagree"]:
+                self.crosscheck.append({"what": "every identity accepted by the normal form re-evaluated at 2 random rational "
+                                        "points with 40 digits", "agree": ident.XC["agree"], "skipped (hooks, uninterpreted "
+                                        "functions, point outside the atoms' domain)": ident.XC["skipped"],
+                                        "disagree": len(ident.XC["disagree"])})
+            if ident.XC["disagree"]:
+                self.crashed = "normal form / numerical evaluation disagreement: " + ident.XC["disagree"][0][:600]
+        except ImportError:
+            pass
         kf_all = _load_known()
         kf = [k for k in kf_all if k.get("property") == self.prop and k.get("status") == "open"]
         lines = []
@@ -216,7 +232,7 @@ class Check:
             "property_id": self.prop,
             "tier": self.tier,
             "seed": self.seed,
-            "level": "proof",
+            "level": self.level_category,
             "coverage": {
                 "obligations": n_obl,
                 "discharged": n_dis,
@@ -243,8 +259,9 @@ class Check:
             "wall_s": wall,
             "violations": violations,
         }
-        os.makedirs(os.path.join(VERIF, "evidence"), exist_ok=True)
-        with open(os.path.join(VERIF, "evidence", f"{self.prop}.json"), "w") as f:
+        evdir = os.environ.get("PYVC_EVIDENCE_DIR", os.path.join(VERIF, "evidence"))    # override: scratch runs of tools/
+        os.makedirs(evdir, exist_ok=True)
+        with open(os.path.join(evdir, f"{self.prop}.json"), "w") as f:
             json.dump(ev, f, indent=1, default=str)
         for ln in lines:
             print(ln)
@@ -278,7 +295,7 @@ class Check:
         return 0
 
     def _write_replay(self, o):
-        d = os.path.join(VERIF, "replays", self.prop)
+        d = os.path.join(os.environ.get("PYVC_REPLAY_DIR", os.path.join(VERIF, "replays")), self.prop)
         os.makedirs(d, exist_ok=True)
         safe = "".join(c if c.isalnum() or c in "-_." else "_" for c in o["id"])[:120]
         path = os.path.join(d, safe + ".json")
@@ -339,11 +356,31 @@ def native(script, timeout=900):
     return p.stdout
 
 
+def real_self(cls, **attrs):
+    """A `self` for executing one real method in isolation: a genuine instance of `cls` (created without __init__, abstract
+    methods waived) carrying exactly the given attributes.  Unlike a plain stub it still has every method and property of
+    the class, so an 'extract method' refactoring of the code under contract does not break the harness."""
+    sub = type("_Real_" + cls.__name__, (cls,), {"__module__": "pyvc.core"})
+    try:
+        sub.__abstractmethods__ = frozenset()
+    except Exception:
+        pass
+    inst = object.__new__(sub)
+    for k, v in attrs.items():
+        try:
+            object.__setattr__(inst, k, v)
+        except AttributeError:
+            # read-only property on the class: shadow it on the throw-away subclass
+            setattr(sub, k, v)
+    return inst
+
+
 def _is_harness_obj(obj):
     if obj is None:
         return False
     t = type(obj)
-    return t.__module__.split(".")[0] in ("contracts", "pyvc", "types") or t.__name__ in ("_Obj", "SimpleNamespace")
+    return t.__module__.split(".")[0] in ("contracts", "pyvc", "types") or t.__name__ in ("_Obj", "SimpleNamespace") \
+        or t.__name__.startswith("_Real_")
 
 
 def run_replay(path):
